@@ -1,0 +1,154 @@
+//go:build verif
+
+package storage
+
+import (
+	"encoding/binary"
+
+	"github.com/MixinNetwork/mixin/common"
+	"github.com/MixinNetwork/mixin/crypto"
+	"github.com/dgraph-io/badger/v4"
+)
+
+// Verification hooks (build tag verif) for the transaction cache (C23/C24):
+// a read-only dump of the three cache record families, raw record writers used
+// to set up states (as storage/cache_coverage_test.go does), and fixture
+// writers for the persistent transaction / finalization records that
+// ReadTransaction consults.  None of them is used by the kernel.
+
+type VerifC23QueueEntry struct {
+	Ts   uint64
+	Hash crypto.Hash
+}
+
+type VerifC23Payload struct {
+	Hash  crypto.Hash
+	Value []byte
+}
+
+type VerifC23State struct {
+	Queue   []VerifC23QueueEntry // in key order
+	Order   []crypto.Hash        // in key order
+	Payload []VerifC23Payload    // in key order
+}
+
+func verifC23Scan(txn *badger.Txn, prefix string, f func(rest []byte, item *badger.Item) error) error {
+	opts := badger.DefaultIteratorOptions
+	opts.PrefetchValues = false
+	opts.Prefix = []byte(prefix)
+	it := txn.NewIterator(opts)
+	defer it.Close()
+	for it.Seek([]byte(prefix)); it.Valid(); it.Next() {
+		item := it.Item()
+		key := item.KeyCopy(nil)
+		if err := f(key[len(prefix):], item); err != nil {
+			return err
+		}
+	}
+	return nil
+}
+
+func (s *BadgerStore) VerifC23Dump() (*VerifC23State, error) {
+	st := &VerifC23State{}
+	err := s.cacheDB.View(func(txn *badger.Txn) error {
+		err := verifC23Scan(txn, cachePrefixTransactionQueue, func(rest []byte, _ *badger.Item) error {
+			var e VerifC23QueueEntry
+			if len(rest) != 8+len(e.Hash) {
+				panic(len(rest))
+			}
+			e.Ts = binary.BigEndian.Uint64(rest[:8])
+			copy(e.Hash[:], rest[8:])
+			st.Queue = append(st.Queue, e)
+			return nil
+		})
+		if err != nil {
+			return err
+		}
+		err = verifC23Scan(txn, cachePrefixTransactionOrder, func(rest []byte, _ *badger.Item) error {
+			var h crypto.Hash
+			if len(rest) != len(h) {
+				panic(len(rest))
+			}
+			copy(h[:], rest)
+			st.Order = append(st.Order, h)
+			return nil
+		})
+		if err != nil {
+			return err
+		}
+		return verifC23Scan(txn, cachePrefixTransactionCache, func(rest []byte, item *badger.Item) error {
+			var p VerifC23Payload
+			if len(rest) != len(p.Hash) {
+				panic(len(rest))
+			}
+			copy(p.Hash[:], rest)
+			val, err := item.ValueCopy(nil)
+			if err != nil {
+				return err
+			}
+			p.Value = val
+			st.Payload = append(st.Payload, p)
+			return nil
+		})
+	})
+	return st, err
+}
+
+// VerifC23Clear deletes every cache record so one store serves many cases.
+func (s *BadgerStore) VerifC23Clear() error {
+	return s.cacheDB.Update(func(txn *badger.Txn) error {
+		var keys [][]byte
+		for _, p := range []string{cachePrefixTransactionQueue, cachePrefixTransactionOrder, cachePrefixTransactionCache} {
+			err := verifC23Scan(txn, p, func(rest []byte, item *badger.Item) error {
+				keys = append(keys, item.KeyCopy(nil))
+				return nil
+			})
+			if err != nil {
+				return err
+			}
+		}
+		for _, k := range keys {
+			if err := txn.Delete(k); err != nil {
+				return err
+			}
+		}
+		return nil
+	})
+}
+
+func (s *BadgerStore) VerifC23RawQueue(ts uint64, hash crypto.Hash) error {
+	return s.cacheDB.Update(func(txn *badger.Txn) error {
+		return txn.Set(cacheTransactionQueueKey(ts, hash), []byte{})
+	})
+}
+
+func (s *BadgerStore) VerifC23RawOrder(hash crypto.Hash) error {
+	return s.cacheDB.Update(func(txn *badger.Txn) error {
+		return txn.Set(cacheTransactionOrderKey(hash), []byte{})
+	})
+}
+
+func (s *BadgerStore) VerifC23RawPayload(hash crypto.Hash, val []byte) error {
+	return s.cacheDB.Update(func(txn *badger.Txn) error {
+		return txn.Set(cacheTransactionCacheKey(hash), val)
+	})
+}
+
+// VerifC23PutTransaction writes the persistent body record read by
+// ReadTransaction (no ledger checks: fixture only).
+func (s *BadgerStore) VerifC23PutTransaction(ver *common.VersionedTransaction) error {
+	return s.snapshotsDB.Update(func(txn *badger.Txn) error {
+		return txn.Set(graphTransactionKey(ver.PayloadHash()), ver.Marshal())
+	})
+}
+
+// VerifC23PutFinalization writes the finalization record of a transaction.
+func (s *BadgerStore) VerifC23PutFinalization(hash, snapshot crypto.Hash) error {
+	return s.snapshotsDB.Update(func(txn *badger.Txn) error {
+		return txn.Set(graphFinalizationKey(hash), snapshot[:])
+	})
+}
+
+func VerifC23Prefixes() [3]string {
+	return [3]string{cachePrefixTransactionQueue, cachePrefixTransactionOrder, cachePrefixTransactionCache}
+}
